@@ -6,7 +6,7 @@
 use crate::errors::LibChessError as Error;
 use crate::move_masks::{
     BETWEEN_TABLE as BETWEEN, BISHOP_TABLE as BISHOP, KING_TABLE as KING, KNIGHT_TABLE as KNIGHT,
-    PAWN_TABLE as PAWN, QUEEN_TABLE as QUEEN, RAYS_TABLE as RAYS, ROOK_TABLE as ROOK,
+    PAWN_TABLE as PAWN, RAYS_TABLE as RAYS, ROOK_TABLE as ROOK,
 };
 use crate::{
     castle_king_side, castle_queen_side, mv, squares, BitBoard, BoardBuilder, BoardMove,
@@ -873,29 +873,29 @@ impl ChessBoard {
         } else if piece_type == King {
             return Ok(Neither);
         } else {
-            let piece_moves = match piece_type {
-                Knight => KNIGHT.get_moves(destination),
-                Bishop => BISHOP.get_moves(destination),
-                Rook => ROOK.get_moves(destination),
-                Queen => QUEEN.get_moves(destination),
-                _ => unreachable!(),
-            };
+            // other pieces of the same type which can legally move to the same square
+            let rivals: Vec<Square> = self
+                .get_legal_moves()
+                .into_iter()
+                .filter_map(|m| match m {
+                    BoardMove::MovePiece(pm)
+                        if (pm.get_piece_type() == piece_type)
+                            & (pm.get_destination_square() == destination)
+                            & (pm.get_source_square() != source) =>
+                    {
+                        Some(pm.get_source_square())
+                    }
+                    _ => None,
+                })
+                .collect();
 
-            let between_filter = |x: &Square| match piece_type {
-                Knight => true,
-                _ => BETWEEN
-                    .get(*x, piece_move.get_destination_square())
-                    .map_or(BLANK, |x| x & self.combined_mask)
-                    .is_blank(),
-            };
-
-            let pieces_mask =
-                self.get_piece_type_mask(piece_type) & self.get_color_mask(self.side_to_move);
-            if (piece_moves & pieces_mask).filter(between_filter).count() > 1 {
-                if (BitBoard::from_file(source.get_file()) & pieces_mask).count_ones() > 1 {
+            if !rivals.is_empty() {
+                if rivals.iter().all(|s| s.get_file() != source.get_file()) {
+                    return Ok(ExtraFile);
+                } else if rivals.iter().all(|s| s.get_rank() != source.get_rank()) {
                     return Ok(ExtraRank);
                 } else {
-                    return Ok(ExtraFile);
+                    return Ok(ExtraSquare);
                 }
             }
         }
